@@ -1,6 +1,7 @@
 import ScVerif.Base.Line
 import ScVerif.C10.Bus
 import ScVerif.C10.DrvSys
+import ScVerif.C10.DrvLate
 /-!
 Driver handler for C10: an *acceptor* over the bus model (K4 tie) and the pipeline model.
 
@@ -188,6 +189,7 @@ Requests:
                                            observation, else `no <obs1>|<obs2>|…` (what the model allows)
 * `panicked`                            → `true` if any configuration of the frontier has panicked
 * `pinit …` / `pop <observed> <macro…>` → the same protocol for the composed model (`DrvSys.lean`)
+* `late <sync> <uo> <bp> <pre> <del|cancel> <observed>` → acceptor of the late-subscription model (`DrvLate.lean`)
 -/
 def handleS (st : DState) (toks : List String) : DState × String :=
   match toks with
@@ -214,6 +216,7 @@ def handleS (st : DState) (toks : List String) : DState × String :=
   | "pop" :: observed :: mac =>
     let (fr, ans) := sHandle st.sfrontier observed mac
     ({ st with sfrontier := fr }, ans)
+  | "late" :: rest => (st, handleLate rest)
   | _ => (st, "!bad-op")
 
 end ScVerif.C10
